@@ -11,7 +11,7 @@ Build and test the library like this (takes well under a minute):
   cmake -G Ninja -B {wt}/_build -S {wt} -DCMAKE_BUILD_TYPE=RelWithDebInfo -DUNIT_TESTING=ON >/dev/null && cmake --build {wt}/_build >/dev/null && ctest --test-dir {wt}/_build -E "test_live_validation|test_dynamic_groups"
 (the two excluded tests need network access; all others must pass).
 
-Produce EIGHT independent, realistic, BEHAVIOUR-PRESERVING changes to the library sources (files under rtrlib/ or third-party/) in the code that the properties listed below are about — the kind of commit a maintainer makes every week and that must NOT change any observable behaviour relevant to these properties: e.g. extracting a helper function, inlining one, renaming locals or static functions, reordering independent statements, replacing a loop form (for/while, index/pointer), rewriting a condition into an equivalent one, replacing a hand-written expression by an equivalent one (shift vs. multiply, ternary vs. if), changing an internal buffer growth strategy that is not observable, adding/removing debug messages, adding defensive checks that can never fire, reordering static functions or switch cases, changing comments/whitespace around annotated code, adding a field to a private struct, using a different but equivalent libc call. Vary the kind of change and the files; at least two of the eight must be structural (new helper function / moved code between functions), and at least two must touch locking code or the state machine or the PDU parser. Each must compile without new warnings and keep the whole test suite passing. They must keep ALL the properties below true (also for inputs and interleavings the tests do not exercise) — think carefully: a change that alters behaviour in some corner is useless for this purpose.
+Produce EIGHT independent, realistic, BEHAVIOUR-PRESERVING changes to the library sources (files under rtrlib/ or third-party/) in the code that the properties listed below are about — the kind of commit a maintainer makes every week and that must NOT change any observable behaviour relevant to these properties: e.g. extracting a helper function, inlining one, renaming locals or static functions, reordering independent statements, replacing a loop form (for/while, index/pointer), rewriting a condition into an equivalent one, replacing a hand-written expression by an equivalent one (shift vs. multiply, ternary vs. if), changing an internal buffer growth strategy that is not observable, adding/removing debug messages, adding defensive checks that can never fire, reordering static functions or switch cases, changing comments/whitespace around annotated code, adding a field to a private struct, using a different but equivalent libc call. {extra}Vary the kind of change and the files; at least two of the eight must be structural (new helper function / moved code between functions), and at least two must touch locking code or the state machine or the PDU parser. Each must compile without new warnings and keep the whole test suite passing. They must keep ALL the properties below true (also for inputs and interleavings the tests do not exercise) — think carefully: a change that alters behaviour in some corner is useless for this purpose.
 
 For each change i = 1..8 deliver in {wt}/out/H{tag}_<i>/ :
   patch.diff — `git -C {wt} diff -- rtrlib third-party` with ONLY that change applied (produce the changes independently: finish one, save its diff, `git -C {wt} checkout -- rtrlib third-party`, then the next),
@@ -20,7 +20,7 @@ Restore the worktree sources at the end (`git -C {wt} checkout -- rtrlib third-p
 
 The properties (the code they are about is where your changes should go):
 
-""".format(wt=wt, tag=tag)
+""".format(wt=wt, tag=tag, extra=os.environ.get("HARMLESS_EXTRA", ""))
 for i in ids:
     p = props[i]
     txt += "PROPERTY %s: %s\n%s\n(code: %s)\n\n" % (i, p["title"], p["statement"], ", ".join(p["anchors"]["files"]))
